@@ -25,7 +25,7 @@ I32 = (-2**31, 2**31 - 1)
 
 def palette(rng):
     ints = [I32[0] - 1, I32[0], I32[0] + 1, -1, 0, 1, I32[1] - 1, I32[1], I32[1] + 1, 2**32, -2**32, 2**63, -2**63]
-    vals = [["none"], ["bool", True], ["bool", False], ["flt", 1.5], ["flt", -3.0], ["flt", 1e20], ["str", "1"], ["str", ""], ["list"], ["dict"], ["obj"], ["ienum"], ["senum"]]
+    vals = [["none"], ["bool", True], ["bool", False], ["flt", 1.5], ["flt", -3.0], ["flt", 1e20], ["fltx", "inf"], ["fltx", "-inf"], ["fltx", "nan"], ["str", "1"], ["str", ""], ["list"], ["dict"], ["obj"], ["ienum"], ["senum"]]
     vals += [["int", z] for z in ints] + [["int", rng.randrange(-2**40, 2**40)] for _ in range(10)]
     return vals
 
@@ -41,6 +41,8 @@ def cpv(v):
     if k == "flt":
         n, d = float(v[1]).as_integer_ratio()
         return "(VFlt (%d) (%d))" % (n, d)
+    if k == "fltx":
+        return None          # non-finite floats have no exact ratio: not run through the model (real code + spec only)
     if k == "str":
         return "(VStr %s)" % V.q(v[1])
     if k == "list":
@@ -103,7 +105,23 @@ def run(chk):
             base = mmv.value(mmlib.ref(sn), 0, 0, 0)
             base[pn] = 1
             req_fields.append({"cls": sn, "attr": None, "wire": pn, "base": base})
-        pr = V.run_py("r_val.py", input_=json.dumps({"values": vals, "fields": req_fields, "grid": grid}))
+        # the converter path also through ENCLOSING structures (a hook on a parent must not repair or widen the range)
+        nested = []
+        for sn, pn, kind, opt in fields:
+            parents = 0
+            for s2 in mmv.S:
+                if s2 == "LSPObject" or s2 not in pkg["classes"] or parents >= 40:
+                    continue
+                for p2n, p2 in mmv.flat(s2).items():
+                    t2 = p2["type"]
+                    arr = t2["kind"] == "array" and t2["element"].get("name") == sn and t2["element"]["kind"] == "reference"
+                    if (t2["kind"] == "reference" and t2["name"] == sn) or arr:
+                        b2 = mmv.value(mmlib.ref(s2), 0, 0, 0)
+                        inner = mmv.value(mmlib.ref(sn), 0, 0, 0)
+                        nested.append({"cls": s2, "path": [p2n] + ([0] if arr else []) + [pn], "base": b2, "inner": inner, "arr": arr, "kind": kind, "leaf": (sn, pn)})
+                        parents += 1
+        chk.extra["nested_paths"] = len(nested)
+        pr = V.run_py("r_val.py", input_=json.dumps({"values": vals, "fields": req_fields, "grid": grid, "nested": nested}))
         if pr.returncode != 0:
             raise RuntimeError("r_val failed: " + pr.stderr[-2000:])
         real = json.loads(pr.stdout)
@@ -112,7 +130,8 @@ def run(chk):
             rows = []
             for name in ("integer_validator", "uinteger_validator"):
                 for v, code in zip(vals, real["validators"][name]):
-                    rows.append("(%s, %s, %d%%nat)" % (name, cpv(v), code))
+                    if cpv(v) is not None:
+                        rows.append("(%s, %s, %d%%nat)" % (name, cpv(v), code))
             outs = V.coq_eval("CasesC12", "From LSP Require Import Base Sem Val.\nFrom Gen Require Import ValData.\nOpen Scope string_scope.\n"
                               "Definition code (r : vres) : nat := match r with VTrue => 0 | VRaiseValueError m => if names_class_and_attr m then 1 else 3 | _ => 2 end.\n"
                               "Definition cases := [\n" + ";\n".join(rows) + "].\n",
@@ -147,6 +166,14 @@ def run(chk):
             want = 1 if lo <= z <= I32[1] else 0
             if (a != want or b_ != want) and witness is None:
                 witness = {"class": sn, "property": pn, "declared": kind, "int": z, "expected_accept": want, "constructor_accepts": a, "converter_accepts": b_, "base": f["base"]}
+    for n_, r in zip(nested, real.get("nested", [])):
+        lo = I32[0] if n_["kind"] == "integer" else 0
+        for z, acc in zip(grid, r):
+            chk.count((n_["cls"], tuple(n_["path"]), z, "conv-nested"))
+            want = 1 if lo <= z <= I32[1] else 0
+            if acc != want and witness is None:
+                witness = {"class": n_["cls"], "path": n_["path"], "declared": n_["kind"], "int": z, "expected_accept": want, "converter_accepts": acc,
+                           "leaf": list(n_["leaf"]), "base": n_["base"], "inner": n_["inner"], "arr": n_["arr"]}
     chk.sample({"class": "Position", "property": "line", "grid": grid[:9]})
     chk.extra["integer_properties"] = len(fields)
     if witness:
